@@ -36,14 +36,35 @@ let show_tobs_list (r : tobs list option) : string =
   | None -> "ERR fuel"
   | Some l -> String.concat ";" (List.map show_tobs l)
 
+(* ---- registers ---------------------------------------------------------------------- *)
+let parse_reg (s : string) : reg =
+  match s with
+  | "A" -> RA | "B" -> RB | "BA" -> RBA | "IL" -> RIL | "IH" -> RIH | "I" -> RI | "X" -> RX | "Y" -> RY
+  | "U" -> RU | "S" -> RS | "PC" -> RPC | "F" -> RF | "FC" -> RFC | "FZ" -> RFZ
+  | _ -> if String.length s > 4 && String.sub s 0 4 = "TEMP" then RTEMP (nat_of_int (ios (String.sub s 4 (String.length s - 4))))
+         else failwith ("bad reg " ^ s)
+
+let parse_rop (s : string) : rop =
+  match split_on ':' s with
+  | ["s"; r; v] -> OSet (parse_reg r, n_of_int (ios v))
+  | ["g"; r] -> OGet (parse_reg r)
+  | ["snap"] -> OSnap
+  | ["blob"] -> OBlob
+  | _ -> failwith ("bad reg op " ^ s)
+
+let show_nl (l : n list) : string = String.concat "," (List.map (fun x -> string_of_int (int_of_n x)) l)
+let show_nll (l : n list list) : string = String.concat ";" (List.map show_nl l)
+
 let handle (w : string list) : string =
   match w with
+  | "regs_py" :: ops -> show_nll (regs_py_run (List.map parse_rop ops))
+  | "regs_rs" :: ops -> show_nll (regs_rs_run (List.map parse_rop ops))
   | "timer_py" :: en :: pm :: ps :: isr :: ops ->
-      let t = py_init (s2b en) (n_of_int (ios pm)) (n_of_int (ios ps)) in
-      show_tobs_list (py_run t (n_of_int (ios isr)) (List.map parse_top ops))
+      let t = timer_py_init (s2b en) (n_of_int (ios pm)) (n_of_int (ios ps)) in
+      show_tobs_list (timer_py_run t (n_of_int (ios isr)) (List.map parse_top ops))
   | "timer_rs" :: en :: pm :: ps :: isr :: ops ->
-      let t = rs_init (s2b en) (n_of_int (ios pm)) (n_of_int (ios ps)) (n_of_int (ios isr)) in
-      show_tobs_list (rs_run t (List.map parse_top ops))
+      let t = timer_rs_init (s2b en) (n_of_int (ios pm)) (n_of_int (ios ps)) (n_of_int (ios isr)) in
+      show_tobs_list (timer_rs_run t (List.map parse_top ops))
   | c :: _ -> "ERR unknown-command " ^ c
   | [] -> "ERR empty"
 
